@@ -90,7 +90,7 @@ def classifyAof (point : String) (now2 : Int) (log : Bytes) (preEmpty : Bool) (p
   else if (match copySrc with | some s => !preEmpty && stateLossy now2 s | none => false) then "preamble-retypes-values"
   else "-"
 
-def pTail (mode : String) : P (Option (Int × State) × Int × List State × String × Int × Option State) := do
+def pTail (mode : String) : P (Option (Int × State) × Int × List Int × List State × String × Int × Option State) := do
   let _ := mode
   expect "Y"
   let toks ← get
@@ -99,6 +99,9 @@ def pTail (mode : String) : P (Option (Int × State) × Int × List State × Str
     | _ => do let t ← pInt; expect "S"; let s ← pState; pure (some (t, s))
   expect "A"
   let lastSave ← pInt
+  expect "K"
+  let nk ← pNat
+  let ks ← rep nk pInt
   expect "N"
   let n ← pNat
   let cands ← rep n (do expect "S"; pState)
@@ -106,7 +109,7 @@ def pTail (mode : String) : P (Option (Int × State) × Int × List State × Str
   let kind ← tok
   let ls ← pInt
   let r ← if kind == "ok" then (do expect "S"; let s ← pState; pure (some s)) else pure none
-  pure (copy, lastSave, cands, kind, ls, r)
+  pure (copy, lastSave, ks, cands, kind, ls, r)
 
 def showRestored : Restored → String
   | .ok _ => "ok" | .panic => "panic" | .unmod w => s!"unmod({w})"
@@ -116,7 +119,7 @@ def verdictAof (id point : String) (now2 : Int) (inj stuck : Bool) (nrw : Nat) :
   expect "L"; let log ← pFile
   expect "P"; let pre ← pFile
   expect "Q"; let q ← pDecoded
-  let (copy, _, cands, kind, _, r) ← pTail "aof"
+  let (copy, _, _, cands, kind, _, r) ← pTail "aof"
   let logB := log.getD []
   let preEmpty := (pre.getD []).isEmpty
   -- 1. the model of restore against what the fresh instance serves
@@ -153,6 +156,79 @@ def verdictAof (id point : String) (now2 : Int) (inj stuck : Bool) (nrw : Nat) :
   let own := if nrw == 0 then "C02" else if point == "boundary" || point == "redurable" then "C02+C09" else "C09"
   pure s!"{id} {modelV} ## dur={dur} dcls={cls} own={own} pt={point} jr={jr} ncand={cands.length}"
 
+/-- classes of snapshot images on which the unchanged code is known to lose or change data -/
+def classifySnap (point : String) (now2 : Int) (manifestOk : Bool) (dangling : Bool) (copySrc : Option State) (cands : List State) (stuck : Bool) : String :=
+  let inWindow := ["snapshot.take.manifest.created", "snapshot.take.manifest.written", "snapshot.take.manifest.closed",
+                   "snapshot.take.dir.created", "snapshot.take.state.created", "snapshot.take.state.written~torn"].any fun p => point.startsWith p
+  if point == "hang" then (if stuck then "rewrite-after-failed-write-hangs" else "-")
+  else if inWindow then "snapshot-crash-window-loses-previous"
+  else if !manifestOk && point.startsWith "snapshot.take.manifest.written~torn" then "snapshot-crash-window-loses-previous"
+  else if dangling then "failed-snapshot-leaves-dangling-manifest"
+  else if (match copySrc with | some s => stateLossy now2 s | none => false) || cands.any (stateLossy now2) then "snapshot-retypes-values"
+  else "-"
+
+def pSnapDirs : P (List SnapDir) := do
+  expect "G"
+  let n ← pNat
+  rep n (do
+    let name ← pNat
+    let len ← pNat
+    let ls ← pInt
+    expect "Q"
+    let q ← pDecoded
+    let st : Option (Option (List (Nat × List (Bytes × Entry)) × Int)) :=
+      match q with
+      | none => if len == 0 then some none else some none
+      | some none => some none           -- empty file: json error
+      | some (some s) => some (some (dataset s, ls))
+    pure (⟨name, st⟩ : SnapDir))
+
+def verdictSnap (id point : String) (now2 : Int) (stuck : Bool) : P String := do
+  expect "F"; let mf ← pFile
+  let mdec ← pNat
+  let mms ← pInt
+  let dirs ← pSnapDirs
+  let (copy, liveLs, ks, cands, kind, ls, r) ← pTail "snap"
+  let manifest : Option (Option Int) := match mf with
+    | none => none
+    | some _ => if mdec == 1 then some (some mms) else some none
+  -- a snapshot directory without state.bin is reported with length 0 and no decodable content
+  let (m, mls) := restoreSnap now2 ⟨manifest, dirs⟩
+  let modelV : String := match m, kind, r with
+    | .ok s, "ok", some rs =>
+      if canonRestored s == canonRestored rs then (if mls == ls then "OK" else s!"DIFF lastsave model={mls} impl={ls}")
+      else "DIFF restored-state model=" ++ ((toString (repr (canonRestored s).dbs)).replace "\n" " ") ++ " impl=" ++ ((toString (repr (canonRestored rs).dbs)).replace "\n" " ")
+    | .panic, "panic", _ => "OK"
+    | .unmod w, _, _ => s!"SKIP {w}"
+    | m, k, _ => s!"DIFF restore-outcome model={showRestored m} impl={k}"
+  -- JSON retyping against the real decoder, for the state file this process wrote last
+  let jr : String := match copy with
+    | some (t, src) =>
+      match jsonState t src, (dirs.find? fun d => (d.name : Int) == t).bind (·.state) with
+      | some ds, some (some (qs, _)) =>
+        let norm (x : List (Nat × List (Bytes × Entry))) := (x.map fun (i, es) => (i, (es.map fun (ke : Bytes × Entry) => (ke.1, (⟨canonVal ke.2.val, ke.2.exp⟩ : Entry))).mergeSort fun a c => bytesLe a.1 c.1)).mergeSort fun a c => a.1 ≤ c.1
+        if norm ds == norm qs then "ok" else "diff"
+      | _, _ => "na"
+    | none => "na"
+  let modelV := if jr == "diff" && !modelV.startsWith "DIFF" then "DIFF json-retyping the decoded state file is not jsonVal of the copied state" else modelV
+  -- the property: the restored dataset is one of the admissible snapshots, with its LASTSAVE
+  let dur : String := match kind, r with
+    | "ok", some rs =>
+      if (cands.zip ks).any (fun (s, k) => digest now2 s == digest now2 rs && k == ls) then "adm"
+      else if cands.any (fun s => digest now2 s == digest now2 rs) then "rej:lastsave-does-not-name-the-restored-snapshot"
+      else "rej:restored-dataset-is-no-complete-snapshot"
+    | "undumpable", _ => "na"
+    | k, _ => s!"rej:restart-{k}"
+  -- the running server's LASTSAVE after the step: the time of the last snapshot that completed
+  let liveBad := point == "boundary" && liveLs != ks.headD 0
+  let dur := if liveBad then "rej:live-lastsave-names-a-snapshot-that-did-not-complete" else dur
+  -- the manifest names a snapshot whose state file is missing or does not decode
+  let dangling := mdec == 1 && mms != 0 && (match (dirs.find? fun d => (d.name : Int) == mms).bind (·.state) with | some (some _) => false | _ => true)
+  let cls := if liveBad then "-" else classifySnap point now2 (mdec == 1 || mf.isNone) dangling (copy.map (·.2)) cands stuck
+  -- C03 judges restarts of a stopped server; C10 judges crash images and what a (failed) attempt leaves behind
+  let own := if point == "start" then "C03" else if point == "boundary" then "C03+C10" else "C10"
+  pure s!"{id} {modelV} ## dur={dur} dcls={cls} own={own} pt={point} jr={jr} ncand={cands.length}"
+
 def verdictX (line : String) : String :=
   let toks := (line.splitOn " ").filter (· ≠ "")
   let p : P String := do
@@ -171,7 +247,7 @@ def verdictX (line : String) : String :=
       let own := if mode == "aof" then "C09" else "C03"
       pure s!"{id} OK ## dur=rej:server-stops-answering dcls={cls} own={own} pt=hang jr=na ncand=0"
     else if mode == "aof" then verdictAof id point now2 (inj == "1") (stuck == "1") nrw
-    else pure s!"{id} SKIP snap-mode ## dur=na dcls=- own=C03 pt={point}"
+    else verdictSnap id point now2 (stuck == "1")
   match p.run toks with
   | .ok (v, _) => v
   | .error e => s!"{toks.getD 1 "?"} SKIP parse:{e} ## dur=na"
